@@ -46,7 +46,9 @@ CONSTANTS
     Proto, StreamProto,
     LoopProto,     \* "dies": runTruncate leaves its loop when a truncation fails (pinned code, finding F16);
                    \* "survives": it logs the failure and keeps reading the channel (repaired code)
-    TruncMayFail   \* whether a truncation started by the loop can fail
+    TruncMayFail,  \* whether a truncation started by the loop can fail
+    SendProto      \* "block": the weight is sent with a blocking channel send while ab.mux is held (pinned code, finding F17);
+                   \* "drop": non-blocking send, a weight that does not fit is dropped (repaired code)
 
 OpIds == DOMAIN Ops
 
@@ -68,9 +70,11 @@ VARIABLES
     chanClosed,\* operations whose stream channel is closed
     panic,     \* a send on a closed channel happened
     sigq,      \* number of weights waiting in the truncate signal channel
-    loopAlive  \* the runTruncate goroutine is still in its loop
+    loopAlive, \* the runTruncate goroutine is still in its loop
+    loopPc     \* "idle": waiting on the channel; "want": took a triggering weight, about to take ab.mux; "wait": announced;
+               \* "hold": truncating under ab.mux
 
-vars == <<pc, abR, abW, abWait, dgR, dgW, dgWait, sig, closed, chan, chanClosed, panic, sigq, loopAlive>>
+vars == <<pc, abR, abW, abWait, dgR, dgW, dgWait, sig, closed, chan, chanClosed, panic, sigq, loopAlive, loopPc>>
 
 None == <<0, "none">>
 
@@ -136,7 +140,7 @@ Init ==
     /\ chan = [o \in OpIds |-> 0]
     /\ chanClosed = {}
     /\ panic = FALSE
-    /\ sigq = 0 /\ loopAlive = TRUE
+    /\ sigq = 0 /\ loopAlive = TRUE /\ loopPc = "idle"
 
 Adv(p) == pc' = [pc EXCEPT ![p] = @ + 1]
 DgReaders == {p \in Procs : dgR[p] > 0}
@@ -149,59 +153,61 @@ Step(p) ==
        CASE c.i = "abRLock" ->
               /\ abW = None /\ abWait = {}
               /\ abR' = abR \cup {p} /\ Adv(p)
-              /\ UNCHANGED <<abW, abWait, dgR, dgW, dgWait, sig, closed, chan, chanClosed, panic, sigq, loopAlive>>
+              /\ UNCHANGED <<abW, abWait, dgR, dgW, dgWait, sig, closed, chan, chanClosed, panic, sigq, loopAlive, loopPc>>
          [] c.i = "abRUnlock" ->
               /\ abR' = abR \ {p} /\ Adv(p)
-              /\ UNCHANGED <<abW, abWait, dgR, dgW, dgWait, sig, closed, chan, chanClosed, panic, sigq, loopAlive>>
+              /\ UNCHANGED <<abW, abWait, dgR, dgW, dgWait, sig, closed, chan, chanClosed, panic, sigq, loopAlive, loopPc>>
          [] c.i = "abLockAnn" ->
               /\ abWait' = abWait \cup {p} /\ Adv(p)
-              /\ UNCHANGED <<abR, abW, dgR, dgW, dgWait, sig, closed, chan, chanClosed, panic, sigq, loopAlive>>
+              /\ UNCHANGED <<abR, abW, dgR, dgW, dgWait, sig, closed, chan, chanClosed, panic, sigq, loopAlive, loopPc>>
          [] c.i = "abLockAcq" ->
               /\ abW = None /\ abR = {}
               /\ abW' = p /\ abWait' = abWait \ {p} /\ Adv(p)
-              /\ UNCHANGED <<abR, dgR, dgW, dgWait, sig, closed, chan, chanClosed, panic, sigq, loopAlive>>
+              /\ UNCHANGED <<abR, dgR, dgW, dgWait, sig, closed, chan, chanClosed, panic, sigq, loopAlive, loopPc>>
          [] c.i = "abUnlock" ->
               /\ abW' = None /\ Adv(p)
-              /\ UNCHANGED <<abR, abWait, dgR, dgW, dgWait, sig, closed, chan, chanClosed, panic, sigq, loopAlive>>
+              /\ UNCHANGED <<abR, abWait, dgR, dgW, dgWait, sig, closed, chan, chanClosed, panic, sigq, loopAlive, loopPc>>
          [] c.i = "dgRLock" ->
               /\ dgW = None /\ dgWait = {}
               /\ dgR' = [dgR EXCEPT ![p] = @ + 1] /\ Adv(p)
-              /\ UNCHANGED <<abR, abW, abWait, dgW, dgWait, sig, closed, chan, chanClosed, panic, sigq, loopAlive>>
+              /\ UNCHANGED <<abR, abW, abWait, dgW, dgWait, sig, closed, chan, chanClosed, panic, sigq, loopAlive, loopPc>>
          [] c.i = "dgRUnlock" ->
               /\ dgR' = [dgR EXCEPT ![p] = @ - 1] /\ Adv(p)
-              /\ UNCHANGED <<abR, abW, abWait, dgW, dgWait, sig, closed, chan, chanClosed, panic, sigq, loopAlive>>
+              /\ UNCHANGED <<abR, abW, abWait, dgW, dgWait, sig, closed, chan, chanClosed, panic, sigq, loopAlive, loopPc>>
          [] c.i = "dgLockAnn" ->
               /\ dgWait' = dgWait \cup {p} /\ Adv(p)
-              /\ UNCHANGED <<abR, abW, abWait, dgR, dgW, sig, closed, chan, chanClosed, panic, sigq, loopAlive>>
+              /\ UNCHANGED <<abR, abW, abWait, dgR, dgW, sig, closed, chan, chanClosed, panic, sigq, loopAlive, loopPc>>
          [] c.i = "dgLockAcq" ->
               /\ dgW = None /\ DgReaders = {}
               /\ dgW' = p /\ dgWait' = dgWait \ {p} /\ Adv(p)
-              /\ UNCHANGED <<abR, abW, abWait, dgR, sig, closed, chan, chanClosed, panic, sigq, loopAlive>>
+              /\ UNCHANGED <<abR, abW, abWait, dgR, sig, closed, chan, chanClosed, panic, sigq, loopAlive, loopPc>>
          [] c.i = "dgUnlock" ->
               /\ dgW' = None /\ Adv(p)
-              /\ UNCHANGED <<abR, abW, abWait, dgR, dgWait, sig, closed, chan, chanClosed, panic, sigq, loopAlive>>
-         [] c.i = "sigPush" ->   \* ab.truncateSignal <- weight : blocks while the channel is full
-              /\ sigq < SignalBuf
-              /\ sigq' = sigq + 1 /\ Adv(p)
-              /\ UNCHANGED <<abR, abW, abWait, dgR, dgW, dgWait, sig, closed, chan, chanClosed, panic, loopAlive>>
+              /\ UNCHANGED <<abR, abW, abWait, dgR, dgWait, sig, closed, chan, chanClosed, panic, sigq, loopAlive, loopPc>>
+         [] c.i = "sigPush" ->   \* the new weight goes to the truncation loop while ab.mux is held
+              /\ IF SendProto = "block"
+                 THEN sigq < SignalBuf /\ sigq' = sigq + 1            \* blocks while the channel is full
+                 ELSE sigq' = IF sigq < SignalBuf THEN sigq + 1 ELSE sigq   \* select-default: dropped when full
+              /\ Adv(p)
+              /\ UNCHANGED <<abR, abW, abWait, dgR, dgW, dgWait, sig, closed, chan, chanClosed, panic, loopAlive, loopPc>>
          [] c.i = "spawn" ->   \* AncestorsWalker: a momentary read lock, then the producer goroutine starts
               /\ dgW = None /\ dgWait = {}
               /\ pc' = [pc EXCEPT ![p] = @ + 1, ![c.w] = 1]
-              /\ UNCHANGED <<abR, abW, abWait, dgR, dgW, dgWait, sig, closed, chan, chanClosed, panic, sigq, loopAlive>>
+              /\ UNCHANGED <<abR, abW, abWait, dgR, dgW, dgWait, sig, closed, chan, chanClosed, panic, sigq, loopAlive, loopPc>>
          [] c.i = "go" ->
               /\ pc' = [pc EXCEPT ![p] = @ + 1, ![c.w] = 1]
-              /\ UNCHANGED <<abR, abW, abWait, dgR, dgW, dgWait, sig, closed, chan, chanClosed, panic, sigq, loopAlive>>
+              /\ UNCHANGED <<abR, abW, abWait, dgR, dgW, dgWait, sig, closed, chan, chanClosed, panic, sigq, loopAlive, loopPc>>
          [] c.i = "send" ->    \* producer: poll the stop signal; the blocking send itself is the joint step Handoff
               /\ sig[p] > 0
               /\ sig' = [sig EXCEPT ![p] = 0]
               /\ pc' = [pc EXCEPT ![p] = NAnc + 2]      \* fall out of the walk: to dgRUnlock
-              /\ UNCHANGED <<abR, abW, abWait, dgR, dgW, dgWait, closed, chan, chanClosed, panic, sigq, loopAlive>>
+              /\ UNCHANGED <<abR, abW, abWait, dgR, dgW, dgWait, closed, chan, chanClosed, panic, sigq, loopAlive, loopPc>>
          [] c.i = "closeW" ->
               /\ closed' = closed \cup {p} /\ Adv(p)
-              /\ UNCHANGED <<abR, abW, abWait, dgR, dgW, dgWait, sig, chan, chanClosed, panic, sigq, loopAlive>>
+              /\ UNCHANGED <<abR, abW, abWait, dgR, dgW, dgWait, sig, chan, chanClosed, panic, sigq, loopAlive, loopPc>>
          [] c.i = "recvEnd" ->  \* the range loop ends when the channel is closed
               /\ c.w \in closed /\ Adv(p)
-              /\ UNCHANGED <<abR, abW, abWait, dgR, dgW, dgWait, sig, closed, chan, chanClosed, panic, sigq, loopAlive>>
+              /\ UNCHANGED <<abR, abW, abWait, dgR, dgW, dgWait, sig, closed, chan, chanClosed, panic, sigq, loopAlive, loopPc>>
          [] c.i = "recv" ->     \* only the closed case here (walk shorter than expected cannot happen: NAnc fixed)
               /\ FALSE
               /\ UNCHANGED vars
@@ -210,57 +216,72 @@ Step(p) ==
                  THEN panic' = TRUE /\ UNCHANGED sig
                  ELSE sig[c.w] = 0 /\ sig' = [sig EXCEPT ![c.w] = 1] /\ UNCHANGED panic
               /\ Adv(p)
-              /\ UNCHANGED <<abR, abW, abWait, dgR, dgW, dgWait, closed, chan, chanClosed, sigq, loopAlive>>
+              /\ UNCHANGED <<abR, abW, abWait, dgR, dgW, dgWait, closed, chan, chanClosed, sigq, loopAlive, loopPc>>
          [] c.i = "drain" ->    \* for range ids {} : ends when the channel is closed (receiving is Handoff)
               /\ c.w \in closed /\ Adv(p)
-              /\ UNCHANGED <<abR, abW, abWait, dgR, dgW, dgWait, sig, closed, chan, chanClosed, panic, sigq, loopAlive>>
+              /\ UNCHANGED <<abR, abW, abWait, dgR, dgW, dgWait, sig, closed, chan, chanClosed, panic, sigq, loopAlive, loopPc>>
          [] c.i = "push" ->
               /\ chan[c.w[1]] < StreamBuf
               /\ chan' = [chan EXCEPT ![c.w[1]] = @ + 1] /\ Adv(p)
-              /\ UNCHANGED <<abR, abW, abWait, dgR, dgW, dgWait, sig, closed, chanClosed, panic, sigq, loopAlive>>
+              /\ UNCHANGED <<abR, abW, abWait, dgR, dgW, dgWait, sig, closed, chanClosed, panic, sigq, loopAlive, loopPc>>
          [] c.i = "closeChan" ->
               /\ chanClosed' = chanClosed \cup {c.w[1]} /\ Adv(p)
-              /\ UNCHANGED <<abR, abW, abWait, dgR, dgW, dgWait, sig, closed, chan, panic, sigq, loopAlive>>
+              /\ UNCHANGED <<abR, abW, abWait, dgR, dgW, dgWait, sig, closed, chan, panic, sigq, loopAlive, loopPc>>
          [] c.i = "pop" ->
               /\ chan[c.w[1]] > 0
               /\ chan' = [chan EXCEPT ![c.w[1]] = @ - 1] /\ Adv(p)
-              /\ UNCHANGED <<abR, abW, abWait, dgR, dgW, dgWait, sig, closed, chanClosed, panic, sigq, loopAlive>>
+              /\ UNCHANGED <<abR, abW, abWait, dgR, dgW, dgWait, sig, closed, chanClosed, panic, sigq, loopAlive, loopPc>>
          [] c.i = "popEnd" ->
               /\ chan[c.w[1]] = 0 /\ c.w[1] \in chanClosed /\ Adv(p)
-              /\ UNCHANGED <<abR, abW, abWait, dgR, dgW, dgWait, sig, closed, chan, chanClosed, panic, sigq, loopAlive>>
+              /\ UNCHANGED <<abR, abW, abWait, dgR, dgW, dgWait, sig, closed, chan, chanClosed, panic, sigq, loopAlive, loopPc>>
 
 \* the unbuffered id channel: producer at "send" with no stop signal pending, consumer at "recv" or "drain"
 Handoff(w, p) ==
     /\ At(w, "send") /\ sig[w] = 0
     /\ Running(p) /\ Cur(p).w = w /\ Cur(p).i \in {"recv", "drain"}
     /\ pc' = [pc EXCEPT ![w] = @ + 1, ![p] = IF Cur(p).i = "recv" THEN @ + 1 ELSE @]
-    /\ UNCHANGED <<abR, abW, abWait, dgR, dgW, dgWait, sig, closed, chan, chanClosed, panic, sigq, loopAlive>>
+    /\ UNCHANGED <<abR, abW, abWait, dgR, dgW, dgWait, sig, closed, chan, chanClosed, panic, sigq, loopAlive, loopPc>>
 
 \* the producer's select: when a signal is pending and a receiver is ready either branch may be taken;
 \* Step(w) covers the signal branch; with sig > 0 the default branch is not taken by Go's select only
 \* if the signal case is ready, which it is - so no further action here.
 
-\* runTruncate: take a weight from the channel; most weights do not trigger anything; a truncation it starts
-\* may fail (e.g. the tip is shallower than the truncation depth), and then the loop either ends or goes on
+\* runTruncate: take a weight from the channel; most weights do not trigger anything; for a triggering one the
+\* loop logs, takes ab.mux, truncates (which may fail) and goes back to the channel - or ends (LoopProto)
+LoopFrame == <<pc, abR, dgR, dgW, dgWait, sig, closed, chan, chanClosed, panic>>
 LoopTake ==
-    /\ loopAlive /\ sigq > 0
+    /\ loopAlive /\ loopPc = "idle" /\ sigq > 0
     /\ sigq' = sigq - 1
+    /\ loopPc' \in {"idle", "want"}
+    /\ UNCHANGED <<LoopFrame, abW, abWait, loopAlive>>
+LoopAnnounce ==
+    /\ loopPc = "want"
+    /\ abWait' = abWait \cup {<<0, "loop">>} /\ loopPc' = "wait"
+    /\ UNCHANGED <<LoopFrame, abW, sigq, loopAlive>>
+LoopAcquire ==
+    /\ loopPc = "wait" /\ abW = None /\ abR = {}
+    /\ abW' = <<0, "loop">> /\ abWait' = abWait \ {<<0, "loop">>} /\ loopPc' = "hold"
+    /\ UNCHANGED <<LoopFrame, sigq, loopAlive>>
+LoopRelease ==
+    /\ loopPc = "hold"
+    /\ abW' = None /\ loopPc' = "idle"
     /\ \/ loopAlive' = TRUE
        \/ TruncMayFail /\ loopAlive' = (LoopProto = "survives")
-    /\ UNCHANGED <<pc, abR, abW, abWait, dgR, dgW, dgWait, sig, closed, chan, chanClosed, panic>>
+    /\ UNCHANGED <<LoopFrame, abWait, sigq>>
+LoopStep == LoopTake \/ LoopAnnounce \/ LoopAcquire \/ LoopRelease
 
 AllDone == \A p \in Procs : pc[p] = 0 \/ Finished(p)
 
 Next ==
     \/ \E p \in Procs : Step(p)
     \/ \E w \in Walkers, p \in Procs : Handoff(w, p)
-    \/ LoopTake
+    \/ LoopStep
     \/ AllDone /\ UNCHANGED vars
 
 Fairness ==
     /\ \A p \in Procs : WF_vars(Step(p))
     /\ \A w \in Walkers : \A p \in Procs : WF_vars(Handoff(w, p))
-    /\ WF_vars(LoopTake)
+    /\ WF_vars(LoopStep)
 
 Spec == Init /\ [][Next]_vars /\ Fairness
 
@@ -272,7 +293,7 @@ EveryOpReturns == <>AllDone
 
 \* when everything has returned no lock is held and no walker is alive
 NoLeak ==
-    (\A p \in Procs : ~Running(p))
+    ((\A p \in Procs : ~Running(p)) /\ loopPc = "idle")
         => /\ abR = {} /\ abW = None /\ dgW = None /\ DgReaders = {}
 
 \* an operation that has returned leaves no walker of its own holding the graph lock
